@@ -68,9 +68,7 @@ Proof.
   pose proof (set_lens_nonneg f t0 Hf) as N.
   unfold finish, shape in *. destruct rooted.
   - destruct Hshape as [W [D B]].
-    assert (T : is_tip (set_lens f t0) = false).
-    { unfold is_tip. rewrite set_lens_degree, D. reflexivity. }
-    rewrite T. intros E. inversion E; subst. exact N.
+    intros E. inversion E; subst. exact N.
   - destruct Hshape as [e [c [-> [W [B D]]]]].
     assert (D3 : degree c = 3).
     { destruct D as [D|D]; auto. exfalso.
@@ -83,9 +81,7 @@ Proof.
     destruct (set_lens f c) as [n' c' sl'] eqn:Ec.
     unfold degree in Dc. simpl in Dc.
     rewrite (reroot_first_tip_root _ _ _ _ _ Dc).
-    assert (T : is_tip (UNode n' c' (replace_up sl' (Some (e', UNode (tip_name 0) [] [None])))) = false).
-    { unfold is_tip, degree. simpl uslots. now rewrite length_replace_up, Dc. }
-    rewrite T. intros E. inversion E; subst.
+    intros E. inversion E; subst.
     rewrite lens_nonneg_def in N. cbn [forallb] in N.
     apply andb_true_iff in N as [N _]. apply andb_true_iff in N as [N1 N2].
     rewrite lens_nonneg_def in *. apply forallb_replace_up; auto.
